@@ -132,10 +132,30 @@ PropOneItem(st, e, o) ==
   r.ok \/ r.gap \/ (o.kind = "err" /\ (r.err = "ExtraneousData" => o.err = "ExtraneousData"))
 (* C12: where the decoder / encoder of the specification reports a duplicate label, so does the crate *)
 PropDup(n, o) == (n.out.kind = "err" /\ n.out.err = "DuplicateMapKey") => (o.kind = "err" /\ o.err = "DuplicateMapKey")
+(* a value with every retained protected-header byte string blanked (C15 is about the integers, not about retained bytes) *)
+RECURSIVE NoOrigHdr(_)
+RECURSIVE NoOrigSigs(_)
+RECURSIVE NoOrigRecips(_)
+NoOrigProt(p) == [orig |-> <<>>, hdr |-> NoOrigHdr(p.hdr)]
+NoOrigSig(x) == [x EXCEPT !.prot = NoOrigProt(x.prot), !.unprot = NoOrigHdr(x.unprot)]
+NoOrigHdr(h) == [h EXCEPT !.cs = NoOrigSigs(h.cs)]
+NoOrigSigs(a) == [i \in 1..Len(a) |-> NoOrigSig(a[i])]
+NoOrigRecips(a) == [i \in 1..Len(a) |-> [NoOrigSig(a[i]) EXCEPT !.recips = NoOrigRecips(a[i].recips)]]
+NoOrig(ty, v) ==
+  CASE ty = "Header" -> NoOrigHdr(v)
+    [] ty = "ProtectedHeader" -> NoOrigProt(v)
+    [] ty = "CoseSignature" -> NoOrigSig(v)
+    [] ty = "CoseRecipient" -> NoOrigRecips(<<v>>)[1]
+    [] ty = "CoseSign" -> [NoOrigSig(v) EXCEPT !.sigs = NoOrigSigs(v.sigs)]
+    [] ty \in {"CoseSign1", "CoseMac0", "CoseEncrypt0"} -> NoOrigSig(v)
+    [] ty \in {"CoseMac", "CoseEncrypt"} -> [NoOrigSig(v) EXCEPT !.recips = NoOrigRecips(v.recips)]
+    [] ty = "SuppPubInfo" -> [v EXCEPT !.prot = NoOrigProt(v.prot)]
+    [] ty = "CoseKdfContext" -> [v EXCEPT !.pub = [v.pub EXCEPT !.prot = NoOrigProt(v.pub.prot)]]
+    [] OTHER -> v
 (* C15: where the specification reports an out-of-range integer, so does the crate; accepted values are exact *)
-PropRange(n, o) ==
+PropRange(e, n, o) ==
   /\ (n.out.kind = "err" /\ n.out.err = "OutOfRangeIntegerValue") => (o.kind = "err" /\ o.err = "OutOfRangeIntegerValue")
-  /\ (n.out.kind = "ok" /\ o.kind = "ok" /\ o.cmpval) => Obs(n).val = o.val
+  /\ (n.out.kind = "ok" /\ o.kind = "ok" /\ o.cmpval /\ o.val # <<>>) => NoOrig(e.ty, n.mem.val) = NoOrig(e.ty, o.val[1])
 (* C14: the untagged decoder of a taggable type rejects every tagged item *)
 PropUntagged(st, e, o) ==
   LET r == ReadToValue(st.wire[1]) IN
@@ -198,7 +218,7 @@ Consume ==
            \/ PrintT(<<"PROPFAIL", l, "one-item", ToJson([event |-> e, design |-> Obs(n)])>>))
        /\ (gap \/ e.ev \notin {"decode", "encode"} \/ Prop \notin {"C12", ""} \/ PropDup(n, o)
            \/ PrintT(<<"PROPFAIL", l, "duplicate-label", ToJson([event |-> e, design |-> Obs(n)])>>))
-       /\ (gap \/ e.ev # "decode" \/ Prop \notin {"C15", ""} \/ PropRange(n, o)
+       /\ (gap \/ e.ev # "decode" \/ Prop \notin {"C15", ""} \/ PropRange(e, n, o)
            \/ PrintT(<<"PROPFAIL", l, "integer-range", ToJson([event |-> e, design |-> Obs(n)])>>))
        /\ (gap \/ ~dec \/ Prop \notin {"C14", ""} \/ PropUntagged(s, e, o)
            \/ PrintT(<<"PROPFAIL", l, "untagged-decoder-accepts-tag", ToJson([event |-> e, design |-> Obs(n)])>>))
